@@ -9,13 +9,14 @@ from vf.ref.view import view_abstract, view_lib
 LEVEL = "exploration"
 RULE = ("seeded abstract messages over the whole grammar (21 kinds, sampled optional-attribute subsets, 0..5 children); "
         "for each, EVERY single-point perturbation is built (each attribute changed/dropped/added, text changed, each "
-        "child at every index changed/dropped/duplicated/swapped, kind changed to a sibling kind) and compared with == "
+        "child at every index changed/dropped/duplicated/swapped/replaced by a part of another kind with the same name and value, "
+        "kind changed to a sibling kind) and compared with == "
         "and != against the original, plus an independently rebuilt copy; a pair is non-trivial when the two structural "
         "views differ (perturbation) or are identical (copy); distinct = hash(original, perturbation)")
 ASSUMPTIONS = ["the structural view (vf.ref.view) reads instance attributes only; '' == absent text, () == absent children, "
                "0 == '0' are not demanded to differ",
                "messages are built through the library constructors, as a user would"]
-REQUIRED_EVENTS = ["pairs_unequal_expected", "pairs_equal_expected", "child_index_perturbations"]
+REQUIRED_EVENTS = ["pairs_unequal_expected", "pairs_equal_expected", "child_index_perturbations", "child_kind_pairs"]
 SHARDED = True
 
 QUICK_SHARDS = 4
@@ -197,6 +198,59 @@ def check_pair(ctx, am, label, bm, case):
                     dict(case, pert=label), {"a": am, "b": bm})
 
 
+KIND_SWAP_VALUE = {"Light": "Ok", "Switch": "On", "Number": "1", "Text": None, "BLOB": None}
+
+
+def check_child_kind(ctx, am, case):
+    """Children that differ only in their KIND (same name, same value text): the children sequence of an existing message is
+    replaced, as user code may do, because the constructors (rightly) refuse a foreign part kind."""
+    ch = am.get("children") or []
+    spec = G.GRAMMAR[am["tag"]]
+    if not ch:
+        return
+    ctag = spec["child"]
+    prefix = "def" if ctag.startswith("def") else "one"
+    for i, c in enumerate(ch):
+        for other in G.PARTS:
+            if other == ctag or not other.startswith(prefix):
+                continue
+            okind = G.PARTS[other]["value"]
+            text = c.get("text")
+            # a value text both kinds accept
+            for t in (text, KIND_SWAP_VALUE.get(G.PARTS[ctag]["value"]), KIND_SWAP_VALUE.get(okind)):
+                try:
+                    a = G.lib_message(am)
+                    b = G.lib_message(am)
+                    mine = G.lib_part(dict(c, text=t))
+                    attrs = {"name": c["attrs"]["name"]}
+                    if other == "defNumber":
+                        attrs.update(format="%f", min=0, max=0, step=0)
+                    if other == "oneBLOB":
+                        attrs.update(size=0, format="")
+                    foreign = G.lib_part({"tag": other, "attrs": attrs, "text": t})
+                except Exception:
+                    continue
+                ka = list(a.children)
+                kb = list(b.children)
+                ka[i] = mine
+                kb[i] = foreign
+                a.children, b.children = tuple(ka), tuple(kb)
+                if view_lib(a) == view_lib(b):
+                    ctx.count("perturbation_without_view_change")
+                    break
+                ctx.count("pairs_unequal_expected")
+                ctx.count("child_kind_pairs")
+                ctx.count("child_index_perturbations")
+                ctx.seen("perturbation_kinds", "child-kind-changed")
+                if a == b or not (a != b):
+                    n = len(ch)
+                    ctx.violate(f"unequal-compare-equal:child-kind-changed{'-last-child' if i == n - 1 else '-non-last-child'}",
+                                f"{am['tag']}: child {i} is a {ctag} in one message and a {other} in the other (same name and value {t!r}) "
+                                f"and they compare equal", dict(case, pert=f"child-kind-changed:{other}@{i}"), {"a": am})
+                    return
+                break
+
+
 def check_copy(ctx, am, case):
     a = G.lib_message(am)
     b = G.lib_message(copy.deepcopy(am))
@@ -240,6 +294,7 @@ def one_case(ctx, case):
         check_pair(ctx, am, label, bm, case)
     check_copy(ctx, am, case)
     check_parts(ctx, am, case)
+    check_child_kind(ctx, am, case)
     ctx.case({"am": am}, nontrivial=n > 0, sample={"message": am, "perturbations": n})
 
 
